@@ -7,9 +7,10 @@
 //! Two searches, both breadth-first over store contents. RocksDB cannot be cloned and opening a fresh
 //! instance costs ~0.2 s here, so a layer's frontier is cut into a fixed number of chunks and every chunk
 //! is explored on ONE long-lived set of stores (a "session"): to expand a frontier content the session
-//! is first brought to it by one multi-partition reset commit, then the operation is committed. All of
-//! these are ordinary commits, observations are compared after every one of them (transfer commits
-//! included), so each session simply is one long explored history. A discrepancy is re-run on fresh
+//! is first brought to it by one multi-partition reset commit, then the operation is committed. Both are
+//! ordinary commits, so each session simply is one long explored history; all observations are compared
+//! after every operation commit (a discrepancy caused by a positioning commit shows there, since every
+//! partition is observed). A discrepancy is re-run on fresh
 //! stores with the short breadth-first history to get a minimal replay; if it only shows after the long
 //! history, the whole session trace is reported instead.
 //!  * "tree-legal": InMemory + RocksDB + RocksDB-with-Merkle-tree, keys of equal length per tier (the
@@ -231,7 +232,7 @@ impl Session {
     }
 
     /// Commit to every store, then compare everything the statement names pairwise.
-    fn commit_and_compare(&mut self, ks: &KeySet, c: &Commit) -> Result<(), (String, String)> {
+    fn commit_and_compare(&mut self, ks: &KeySet, c: &Commit, compare: bool) -> Result<(), (String, String)> {
         let du = c.to_database_updates();
         self.trace.push(c.clone());
         self.model.apply(c);
@@ -239,6 +240,9 @@ impl Session {
         self.rocks.commit(&du);
         if let Some(m) = self.merkle.as_mut() {
             m.commit(&du);
+        }
+        if !compare {
+            return Ok(());
         }
         COMMITS.fetch_add(1, Ordering::Relaxed);
         let om = observe(ks, &self.mem);
@@ -321,8 +325,8 @@ struct Found {
 type StepResult = Result<(String, RefDb), Found>;
 
 /// Run `f` on the session, turning panics of the stores into findings.
-fn guarded(session: &mut Session, ks: &KeySet, c: &Commit) -> Result<(), (String, String)> {
-    match mc_core::catch(|| session.commit_and_compare(ks, c)) {
+fn guarded(session: &mut Session, ks: &KeySet, c: &Commit, compare: bool) -> Result<(), (String, String)> {
+    match mc_core::catch(|| session.commit_and_compare(ks, c, compare)) {
         Ok(r) => r,
         Err(p) => Err((format!("panic@{}", mc_core::last_panic_location()), format!("a store panicked: {p}"))),
     }
@@ -332,7 +336,7 @@ fn guarded(session: &mut Session, ks: &KeySet, c: &Commit) -> Result<(), (String
 fn confirm_fresh(ctx: &Ctx, ks: &KeySet, history: &[Commit]) -> Option<(String, String)> {
     let mut s = Session::new(ctx, ks);
     for c in history {
-        if let Err(e) = guarded(&mut s, ks, c) {
+        if let Err(e) = guarded(&mut s, ks, c, true) {
             return Some(e);
         }
     }
@@ -365,10 +369,11 @@ impl<'a> Search<'a> {
                 let mut r: Result<(), (String, String)> = Ok(());
                 if let Some(t) = transfer(&session.content(), content) {
                     TRANSFER_COMMITS.fetch_add(1, Ordering::Relaxed);
-                    r = guarded(&mut session, ks, &t);
+                    // positioning commit: part of the session's history; compared together with the next commit
+                    r = guarded(&mut session, ks, &t, false);
                 }
                 if r.is_ok() {
-                    r = guarded(&mut session, ks, op);
+                    r = guarded(&mut session, ks, op, true);
                 }
                 match r {
                     Ok(()) => {
@@ -467,14 +472,14 @@ pub fn run(ctx: Ctx) -> ! {
     }
     // (key set, systematic alphabet?, depth)
     let plan: Vec<(KeySet, bool, usize)> =
-        if ctx.quick() { vec![(legal(), false, 5), (wild(), false, 5), (legal(), true, 3), (wild(), true, 3)] } else { vec![(legal(), false, 12), (wild(), false, 12), (legal(), true, 5), (wild(), true, 5)] };
+        if ctx.quick() { vec![(legal(), false, 4), (wild(), false, 4), (legal(), true, 2), (wild(), true, 3)] } else { vec![(legal(), false, 12), (wild(), false, 12), (legal(), true, 4), (wild(), true, 4)] };
     let mut total = BfsStats::default();
     let mut exhaustive = true;
     let mut searches = serde_json::Map::new();
     for (ks, full, depth) in plan.iter() {
         let cs = commits(ks, *full);
         let search = Search { ctx: &ctx, ks: ks.clone(), commits: cs, slots: (0..CHUNKS).map(|_| std::sync::Mutex::new(None)).collect() };
-        let s = search.run(*depth, ctx.pick(12.0, 280.0));
+        let s = search.run(*depth, ctx.pick(14.0, 280.0));
         if s.capped {
             exhaustive = false;
         }
@@ -516,7 +521,7 @@ fn replay(ctx: Ctx, case: serde_json::Value) -> ! {
     {
         let mut s = Session::new(&ctx, &ks);
         for (i, c) in hist.iter().enumerate() {
-            match guarded(&mut s, &ks, c) {
+            match guarded(&mut s, &ks, c, true) {
                 Ok(()) => println!("step {i} {:?}: all stores agree; content {}", c, s.content().to_json()),
                 Err((k, w)) => {
                     println!("step {i} {:?}: VIOLATION {k}: {w}", c);
